@@ -1,6 +1,6 @@
 // Function translator: the BODY of a pure Go function becomes a Lean definition over
 // CM/Lib/GoLite.lean (see the comment there for the scheme). Unlike the fact extractors this
-// one carries the whole meaning of the function across: the ties in CM/Tie/Fn.lean then prove,
+// one carries the whole meaning of the function across: the ties in CM/Tie/FnCxx.lean then prove,
 // for ALL inputs, that the hand-written model function equals the translated one.
 //
 // Supported subset (anything else makes the translation of that function fail softly — the
